@@ -4,8 +4,14 @@ For every method of `simulatedQubit` that calls a state-acting engine method
 (`self.register.apply_*` / `self.register.measure_*`) it records
 
   noiseFirst   `self._apply_random_pauli_noise()` is an unconditional statement
-               of the method body and every engine call of the method comes
-               after it
+               of the method body, every engine call of the method comes
+               after it, and NO statement before it can leave the method
+               (no `return` / `raise` / `yield` / `await` anywhere inside the
+               statements that precede it, no loop or `try` or `with` or
+               `match` there either): the hook is reached on every path, so
+               an "identity shortcut" / early refusal in front of it makes
+               the obligation fail
+  exitsBefore  number of such statements in front of the hook (0 required)
   engineCalls  [(engine method, first argument is `self.num`)]
   unrecognised the method uses `self.register` in a way the translator does not
                understand (aliasing it, passing it on, ...): every obligation
@@ -149,6 +155,24 @@ def _noise_sites(fn):
     return top, total
 
 
+# statements that may stand in front of the hook: straight-line code that always falls through to the next statement
+_LEAVES = (ast.Return, ast.Raise, ast.Yield, ast.YieldFrom, ast.Await, ast.Break, ast.Continue)
+_OPAQUE = (ast.For, ast.AsyncFor, ast.While, ast.Try, ast.With, ast.AsyncWith, ast.FunctionDef, ast.AsyncFunctionDef,
+           ast.ClassDef, ast.Lambda) + tuple(getattr(ast, n) for n in ("Match", "TryStar") if hasattr(ast, n))
+
+
+def _can_leave(st):
+    """the statement may end the method (or skip what follows it) instead of falling through"""
+    if isinstance(st, ast.Assert):
+        return True
+    return any(isinstance(n, _LEAVES + _OPAQUE) for n in ast.walk(st))
+
+
+def _exits_before(fn, idx):
+    """number of statements of the method body in front of statement `idx` that can leave the method"""
+    return sum(1 for st in fn.body[:idx] if _can_leave(st))
+
+
 def _top_index(fn, node):
     for i, st in enumerate(fn.body):
         for n in ast.walk(st):
@@ -188,11 +212,13 @@ def extract(src_text):
             continue
         top, total = _noise_sites(fn)
         first_engine = min(_top_index(fn, node) for _, _, node in calls)
-        noise_first = bool(top) and top[0] < first_engine
+        exits = _exits_before(fn, top[0]) if top else 0
+        noise_first = bool(top) and top[0] < first_engine and exits == 0
         ops.append({
             "name": fn.name,
             "line": fn.lineno,
             "noiseFirst": noise_first,
+            "exitsBefore": exits,
             "noiseCalls": total,
             "engineCalls": [(name, bool(args) and is_num(args[0])) for name, args, _ in calls],
             "unrecognised": bad > 0,
@@ -219,7 +245,8 @@ def render(tab):
     w("structure OpMethod where")
     w("  name : String")
     w("  line : Nat")
-    w("  /-- `self._apply_random_pauli_noise()` is an unconditional statement before every engine call -/")
+    w("  /-- `self._apply_random_pauli_noise()` is an unconditional statement before every engine call, and no")
+    w("  statement in front of it can leave the method (no return / raise / yield / loop / try): reached on every path -/")
     w("  noiseFirst : Bool")
     w("  /-- number of call sites of `_apply_random_pauli_noise` in the method -/")
     w("  noiseCalls : Nat")
